@@ -174,20 +174,37 @@ func checkPartialForest(in *Inst, f *model.Forest, tracked []int, exactCache boo
 	sort.Ints(tracked)
 	trackedSet := map[int]bool{}
 	if !in.ar.off {
-		// a request that has to be refused comes first (a remembered leaf followed by a live leaf the forest
-		// does not remember): whatever the refused call leaves behind shows in the checks that follow
+		// a request naming a live leaf the forest does NOT remember (before and after a remembered one) comes
+		// first: it is either refused or answered with the true canonical proof, and whatever a refused call
+		// leaves behind shows in the checks that follow
 		for _, sl := range f.Live() {
-			if !inSet(tracked, sl) {
-				func() {
-					defer func() { recover() }()
-					req := []Hash{f.Hashes[sl]}
-					if len(tracked) > 0 {
-						req = append([]Hash{f.Hashes[tracked[0]]}, req...)
-					}
-					m.Prove(req)
-				}()
-				break
+			if inSet(tracked, sl) {
+				continue
 			}
+			reqs := [][]int{{sl}}
+			if len(tracked) > 0 {
+				reqs = [][]int{{tracked[0], sl}, {sl, tracked[0]}}
+			}
+			for _, rq := range reqs {
+				hs := f.HashesOf(rq)
+				var got u.Proof
+				var perr error
+				panicked := false
+				func() {
+					defer func() {
+						if recover() != nil {
+							panicked = true
+						}
+					}()
+					got, perr = m.Prove(cloneHashes(hs))
+				}()
+				if !panicked && perr == nil {
+					if want := v.Proof(hs); !eqProof(got, want) {
+						return fmt.Errorf("%s: Prove(slots %v), of which slot %d is not remembered, reports success with %s; the true proof is %s", in.Cfg, rq, sl, proofStr(got), proofStr(want))
+					}
+				}
+			}
+			break
 		}
 	}
 	for _, s := range tracked {
